@@ -107,6 +107,13 @@ func deserializeParams(batch arrow.RecordBatch, target reflect.Type) (reflect.Va
 		)
 	}
 
+	// Values are read from row 0. A zero-row batch reaches here when a pointer
+	// batch (external location) was exempted from ReadRequest's row check but
+	// never resolved, e.g. on a server without an external-location config.
+	if len(desc.Fields) > 0 && batch.NumRows() < 1 {
+		return reflect.Value{}, fmt.Errorf("parameter batch has no rows")
+	}
+
 	result := reflect.New(target).Elem()
 
 	for ord, fd := range desc.Fields {
